@@ -977,4 +977,150 @@ Qed.
 
 End Plus.
 
+(* ------------------------------------------------------------------ *)
+(* eaMuCommaLambda *)
+
+Section Comma.
+Variable mu : nat.
+Variable lambda_ : Z.
+Variables cxpb mutpb : T.
+Notation lam := (Z.to_nat lambda_).
+Notation fcomma := (full_comma evaluate fle ltb leb add one mate_o mut_o mu lambda_ cxpb mutpb).
+Notation fstep := (fstep_comma evaluate fle ltb leb add one mate_o mut_o lambda_ cxpb mutpb).
+
+Lemma full_comma_unfold h0 d pop sels (b : fstate) :
+  fcomma h0 d pop sels = FOk b ->
+  (Z.of_nat mu <= lambda_)%Z /\ frun fstep 1 (fgen0 evaluate fle (finit h0 d pop)) sels = FOk b.
+Proof.
+  unfold full_comma. destruct (Z.leb_spec (Z.of_nat mu) lambda_); [auto|discriminate].
+Qed.
+
+Lemma full_comma_fold h0 d pop sels (b : fstate) :
+  (Z.of_nat mu <= lambda_)%Z -> frun fstep 1 (fgen0 evaluate fle (finit h0 d pop)) sels = FOk b ->
+  fcomma h0 d pop sels = FOk b.
+Proof.
+  intros L H. unfold full_comma. destruct (Z.leb_spec (Z.of_nat mu) lambda_); [exact H|lia].
+Qed.
+
+Lemma full_comma_link h0 d pop sels (b : fstate) :
+  finit_ok h0 pop -> Forall (sel_in lam mu) sels ->
+  fcomma h0 d pop sels = FOk b ->
+  exists answers, length answers = length sels /\
+    init_ok evaluate (st_of h0 pop) pop /\
+    run_ok (step_comma evaluate fle) (ans_ok_comma mu lam) 1 (gen0 evaluate fle (init (st_of h0 pop) pop)) answers /\
+    Forall (fun a => off_invalid_distinct (a_off a)) answers /\
+    SRel b (ea_comma evaluate fle (st_of h0 pop) pop answers).
+Proof.
+  intros Hi Hs H. apply full_comma_unfold in H. destruct H as [_ H]. destruct (init_sim h0 pop Hi) as [_ [I0 _]].
+  destruct (frun_sim fstep (step_comma evaluate fle) (ans_ok_comma mu lam)
+              (fun _ => sel_in lam mu) (fun _ _ => True))
+    with (l := sels) (gen := 1) (fs := fgen0 evaluate fle (finit h0 d pop))
+         (cs := gen0 evaluate fle (init (st_of h0 pop) pop)) (fe := b) as [answers [L [Ok [Ds Sf]]]].
+  - intros gen fs cs x fs' SR _ Hp E.
+    destruct (fstep_comma_sim mu lambda_ cxpb mutpb gen fs cs x fs' SR Hp E) as [s1 [off [_ [_ [Lo [Oa [Da S1]]]]]]].
+    exists (var_ans x s1 off). auto.
+  - apply gen0_sim. exact Hi.
+  - exact I.
+  - apply pres_const. exact Hs.
+  - exact H.
+  - exists answers. auto.
+Qed.
+
+Theorem full_comma_every_boundary h0 d pop sels1 sels2 (e : fstate) :
+  finit_ok h0 pop -> Forall (sel_in lam mu) (sels1 ++ sels2) ->
+  fcomma h0 d pop (sels1 ++ sels2) = FOk e ->
+  exists b, fcomma h0 d pop sels1 = FOk b /\
+    InvC evaluate (fview b) /\ length (f_log b) = S (length sels1) /\
+    length (f_pop b) = match sels1 with [] => length pop | _ => mu end /\
+    extends_history (fview b) (fview e).
+Proof.
+  intros Hi Hs H. destruct (full_comma_unfold _ _ _ _ _ H) as [Lm H']. destruct (frun_app _ _ _ _ _ _ H') as [b [H1 H2]].
+  exists b. pose proof (full_comma_fold _ _ _ _ _ Lm H1) as Hb. split; [exact Hb|].
+  apply Forall_app in Hs. destruct Hs as [Hs1 _].
+  destruct (full_comma_link h0 d pop sels1 b Hi Hs1 Hb) as [answers [L [I0 [Ok [_ SR]]]]].
+  destruct (comma_inv evaluate fle mu lam _ pop answers I0 Ok) as [Iv [Ll Lp]].
+  split; [eapply InvC_fview; eassumption|]. split; [rewrite (sr_log _ _ SR), Ll, L; reflexivity|].
+  split.
+  { rewrite (sr_pop _ _ SR), Lp. destruct answers, sels1; cbn in L; try discriminate; reflexivity. }
+  destruct (frun_history _ (fstep_comma_appends lambda_ cxpb mutpb) _ _ _ _ H2) as [rs [cs [E1 [E2 _]]]].
+  eapply fview_history; eassumption.
+Qed.
+
+Theorem full_comma_calls h0 d pop sels1 sel (b s' : fstate) :
+  finit_ok h0 pop -> Forall (sel_in lam mu) (sels1 ++ [sel]) ->
+  fcomma h0 d pop sels1 = FOk b -> fstep (S (length sels1)) b sel = FOk s' ->
+  exists s1 off,
+    call_var_or ltb leb add one mate_o mut_o lambda_ cxpb mutpb b (f_pop b) = (s1, inr off) /\
+    f_pop s' = select_by off sel /\ length off = lam /\ length (f_pop s') = mu /\
+    fcalls_exact b s' (S (length sels1)) (f_pop b) s1 off.
+Proof.
+  intros Hi Hs H1 H2. apply Forall_app in Hs. destruct Hs as [Hs1 Hs2]. inversion Hs2 as [|? ? Hsel _]; subst.
+  destruct (full_comma_link h0 d pop sels1 b Hi Hs1 H1) as [answers [L [I0 [Ok [_ SR]]]]].
+  destruct (fstep_comma_sim mu lambda_ cxpb mutpb _ b _ sel s' SR Hsel H2) as [s1 [off [Ev [VPo [Lo [Oa [Da S1]]]]]]].
+  exists s1, off. split; [exact Ev|].
+  assert (Ep : f_pop s' = select_by off sel).
+  { rewrite (sr_pop _ _ S1). unfold step_comma. rewrite finish_gen_pop. unfold var_ans. cbn [a_off a_sel].
+    rewrite contents_fst. reflexivity. }
+  split; [exact Ep|]. split; [exact Lo|]. split; [rewrite Ep, select_by_length; exact (proj1 Hsel)|].
+  eapply fcalls_of; [exact SR|exact S1|exact VPo| |exact Da].
+  apply (comma_calls evaluate fle mu lam _ _ (var_ans sel s1 off) Oa).
+Qed.
+
+End Comma.
+
+(* ------------------------------------------------------------------ *)
+(* hall of fame; mu+lambda with truncation selection *)
+
+Section Order.
+Hypothesis fle_total : forall a b, fle a b = true \/ fle b a = true.
+Hypothesis fle_trans : forall a b c, fle a b = true -> fle b c = true -> fle a c = true.
+
+Lemma InvH_fview (fs : fstate) (cs : state) : SRel fs cs -> InvH evaluate fle cs -> InvH evaluate fle (fview fs).
+Proof.
+  intros [R Ep Ec El Es Eb Lv] [A B C D].
+  assert (V0 : forall u, In u (s_pop cs) -> view (f_hp fs) u = s_st cs u) by (apply rel_view_on; assumption).
+  constructor; unfold fview; cbn; rewrite ?Ep, ?Ec, ?El, ?Es, ?Eb; try assumption.
+  apply Forall_forall. intros u Hu. rewrite Forall_forall in D. rewrite (V0 u Hu). exact (D u Hu).
+Qed.
+
+Theorem full_simple_hof cxpb mutpb h0 d pop sels1 sels2 (e : fstate) :
+  (forall k x y, V.ret_distinct (V.ma_r1 (mate_o k x y)) (V.ma_r2 (mate_o k x y))) ->
+  finit_ok h0 pop -> Forall (sel_in (length pop) (length pop)) (sels1 ++ sels2) ->
+  full_simple evaluate fle ltb mate_o mut_o cxpb mutpb h0 d pop (sels1 ++ sels2) = FOk e ->
+  exists b, full_simple evaluate fle ltb mate_o mut_o cxpb mutpb h0 d pop sels1 = FOk b /\
+            InvH evaluate fle (fview b).
+Proof.
+  intros Md Hi Hs H. unfold full_simple in H. destruct (frun_app _ _ _ _ _ _ H) as [b [H1 _]].
+  exists b. split; [exact H1|]. apply Forall_app in Hs. destruct Hs as [Hs1 _].
+  destruct (full_simple_link Md cxpb mutpb h0 d pop sels1 b Hi Hs1 H1) as [answers [_ [I0 [Ok [_ SR]]]]].
+  eapply InvH_fview; [exact SR|]. apply simple_hof; assumption.
+Qed.
+
+Theorem full_plus_hof mu lambda_ cxpb mutpb h0 d pop sels1 sels2 (e : fstate) :
+  finit_ok h0 pop -> sels_plus (length pop) mu (Z.to_nat lambda_) (sels1 ++ sels2) ->
+  full_plus evaluate fle ltb leb add one mate_o mut_o lambda_ cxpb mutpb h0 d pop (sels1 ++ sels2) = FOk e ->
+  exists b, full_plus evaluate fle ltb leb add one mate_o mut_o lambda_ cxpb mutpb h0 d pop sels1 = FOk b /\
+            InvH evaluate fle (fview b).
+Proof.
+  intros Hi Hs H. unfold full_plus in H. destruct (frun_app _ _ _ _ _ _ H) as [b [H1 _]].
+  exists b. split; [exact H1|]. apply pres_app in Hs.
+  destruct (full_plus_link mu lambda_ cxpb mutpb h0 d pop sels1 b Hi Hs H1) as [answers [_ [I0 [Ok [_ SR]]]]].
+  eapply InvH_fview; [exact SR|]. eapply plus_hof; eassumption.
+Qed.
+
+Theorem full_comma_hof mu lambda_ cxpb mutpb h0 d pop sels1 sels2 (e : fstate) :
+  finit_ok h0 pop -> Forall (sel_in (Z.to_nat lambda_) mu) (sels1 ++ sels2) ->
+  full_comma evaluate fle ltb leb add one mate_o mut_o mu lambda_ cxpb mutpb h0 d pop (sels1 ++ sels2) = FOk e ->
+  exists b, full_comma evaluate fle ltb leb add one mate_o mut_o mu lambda_ cxpb mutpb h0 d pop sels1 = FOk b /\
+            InvH evaluate fle (fview b).
+Proof.
+  intros Hi Hs H. destruct (full_comma_unfold _ _ _ _ _ _ _ _ _ H) as [Lm H']. destruct (frun_app _ _ _ _ _ _ H') as [b [H1 _]].
+  exists b. pose proof (full_comma_fold _ _ _ _ _ _ _ _ _ Lm H1) as Hb. split; [exact Hb|].
+  apply Forall_app in Hs. destruct Hs as [Hs1 _].
+  destruct (full_comma_link mu lambda_ cxpb mutpb h0 d pop sels1 b Hi Hs1 Hb) as [answers [_ [I0 [Ok [_ SR]]]]].
+  eapply InvH_fview; [exact SR|]. eapply comma_hof; eassumption.
+Qed.
+
+End Order.
+
 End Compose.
